@@ -2,13 +2,16 @@
    No proofs in this file.
 
    Threads: one per connection (its requests run under the dispatcher lock, Dispatcher.remove_connection runs without it)
-   and module threads emitting records (RemoteLogHandler.handle reads the module's dict and iterates over it).
+   and module threads emitting records (RemoteLogHandler.handle, as repaired by 641822e: it takes a snapshot of the
+   module's dict and delivers from the snapshot).
    Granularity: every dict operation the code performs is one atomic step --
      self.subscriptions.setdefault(modname, {})      TSetDefault
      subscriptions[conn] = level                     TSet
      subscriptions.pop(conn, None)                   TPop
-     self.subscriptions[modname]  (in handle)        AGet
-     one next() of the items() iterator              ANext / AEnd
+     self.subscriptions[modname]  (in handle)        AGet    (KeyError: the emission is over)
+     list(subscriptions.items())                     ASnap   (one step: the messages to send are fixed here)
+     send_log(conn, ...) for one item of the snapshot   a delivery step (implicit: a thread with messages left to send
+                                                         sends one per step before it goes on with its program)
    plus acquiring / releasing Dispatcher._lock.  A schedule is a list of thread numbers; a step of a thread that has
    finished or that waits for the lock changes nothing.  The second half of the file is the copy-on-write VARIANT of
    set_conn_level (read + copy, change the copy, store back) used only for the witness that such a variant loses updates. *)
@@ -40,38 +43,49 @@ Inductive aop :=
 | AAcq                                   (* with self._lock: *)
 | ARel (e : option exn)                  (* leaving the with block, normally or with the exception of the request *)
 | ATab (o : top)
-| AGet (m : name) (found : bool)         (* handle: subscriptions = self.subscriptions[modname]; KeyError -> return *)
-| ANext (m : name) (lv : Z) (py : name) (c : conn) (lev : Z) (sent : option name)
-                                         (* the iterator yields (c, lev) for a record (m, lv, python name py); sent: the level
-                                            name of the message handed to send_log for c, if any.  What the iterator of a dict
-                                            that is being modified yields is CPython behaviour and comes as data; the step
-                                            checks it against the table and decides the delivery *)
-| AEnd (err : bool)                      (* the iteration ends: StopIteration, or RuntimeError (dict changed size) *)
-| ABad.                                  (* an operation the model does not know (never part of a compiled program) *)
+| AGet (m : name)                        (* handle: subscriptions = self.subscriptions[modname]; KeyError -> return *)
+| ASnap (lv : Z) (py : name).            (* handle: list(subscriptions.items()) of the dict found by the AGet before, for a
+                                            record with level number lv and python level name py *)
 
-Definition opt_name_eqb (a b : option name) : bool :=
-  match a, b with
-  | None, None => true
-  | Some x, Some y => name_eqb x y
-  | _, _ => false
+(* the table operations of a program, in order *)
+Fixpoint tops (p : list aop) : list top :=
+  match p with
+  | [] => []
+  | ATab o :: r => o :: tops r
+  | _ :: r => tops r
   end.
-Definition opt_Z_eqb (a b : option Z) : bool :=
-  match a, b with
-  | None, None => true
-  | Some x, Some y => Z.eqb x y
-  | _, _ => false
-  end.
+
+(* what a thread remembers between its steps *)
+Record tloc := {
+  l_get : option (name * bool * nat);    (* its last lookup in handle: the module, whether the module's dict was found, and
+                                            the number of steps executed before (the number: specification only) *)
+  l_pend : list delivery                 (* messages of its snapshot still to be sent *)
+}.
+Definition loc0 : tloc := {| l_get := None; l_pend := [] |}.
+
+(* an emission as it happened (specification only): the thread, the record, the table at the moment of the snapshot, how
+   many steps had been executed before the lookup / before the snapshot *)
+Record emission := {
+  em_thread : nat; em_mod : name; em_lv : Z; em_py : name;
+  em_found : bool; em_table : table; em_start : nat; em_pos : nat
+}.
+(* for conn, lev in <snapshot>: if record.levelno >= lev: send_log(conn, modname, levelname, ...) *)
+Definition em_msgs (e : emission) : list delivery :=
+  if em_found e then handle (em_table e) (em_mod e) (em_lv e) (em_py e) else [].
 
 Record cstate := {
   c_table : table;
   c_lock : option nat;                   (* owner of Dispatcher._lock *)
   c_progs : list (list aop);             (* what every thread still has to do *)
-  c_done : list (nat * aop);             (* executed steps, newest first *)
-  c_ok : bool                            (* every reader step so far was consistent with the table *)
+  c_loc : list tloc;
+  c_done : list (nat * aop);             (* executed program steps, newest first *)
+  c_sent : list (nat * delivery);        (* messages handed to send_log, newest first *)
+  c_emis : list emission                 (* snapshots taken, newest first *)
 }.
 
 Definition init (progs : list (list aop)) (t : table) : cstate :=
-  {| c_table := t; c_lock := None; c_progs := progs; c_done := []; c_ok := true |}.
+  {| c_table := t; c_lock := None; c_progs := progs; c_loc := map (fun _ => loc0) progs;
+     c_done := []; c_sent := []; c_emis := [] |}.
 
 Fixpoint set_nth {A} (n : nat) (x : A) (l : list A) : list A :=
   match n, l with
@@ -87,34 +101,74 @@ Definition enabled (lock : option nat) (a : aop) : bool :=
   | _ => true
   end.
 
-(* the delivery decision of handle for one item: if record.levelno >= lev: send_log(conn, modname, levelname, ...) *)
-Definition next_sent (lv : Z) (py : name) (lev : Z) : option name :=
-  if Z.leb lev lv then Some (record_name lv py) else None.
+Definition has_mod (m : name) (t : table) : bool := match get_mod m t with Some _ => true | None => false end.
 
-Definition reader_ok (t : table) (a : aop) : bool :=
+(* the local state of thread i after executing a *)
+Definition loc_after (st : cstate) (lo : tloc) (a : aop) : tloc :=
   match a with
-  | AGet m found => Bool.eqb found (match get_mod m t with Some _ => true | None => false end)
-  | ANext m lv py c lev sent => opt_Z_eqb (look t m c) (Some lev) && opt_name_eqb sent (next_sent lv py lev)
-  | ABad => false
-  | _ => true
+  | AGet m => {| l_get := Some (m, has_mod m (c_table st), length (c_done st)); l_pend := [] |}
+  | ASnap lv py =>
+      match l_get lo with
+      | Some (m, found, _) =>
+          {| l_get := l_get lo; l_pend := if found then handle (c_table st) m lv py else [] |}
+      | None => lo                        (* no lookup before: not a step of handle *)
+      end
+  | _ => lo
+  end.
+
+Definition emis_after (st : cstate) (i : nat) (lo : tloc) (a : aop) : list emission :=
+  match a with
+  | ASnap lv py =>
+      match l_get lo with
+      | Some (m, found, start) =>
+          {| em_thread := i; em_mod := m; em_lv := lv; em_py := py; em_found := found;
+             em_table := c_table st; em_start := start; em_pos := length (c_done st) |} :: c_emis st
+      | None => c_emis st
+      end
+  | _ => c_emis st
   end.
 
 Definition cstep (st : cstate) (i : nat) : cstate :=
-  match nth_error (c_progs st) i with
-  | Some (a :: rest) =>
-      if enabled (c_lock st) a then
-        {| c_table := match a with ATab o => apply_top o (c_table st) | _ => c_table st end;
-           c_lock := match a with AAcq => Some i | ARel _ => None | _ => c_lock st end;
-           c_progs := set_nth i rest (c_progs st);
-           c_done := (i, a) :: c_done st;
-           c_ok := c_ok st && reader_ok (c_table st) a |}
-      else st
-  | _ => st
+  let lo := nth i (c_loc st) loc0 in
+  match l_pend lo with
+  | d :: pr =>
+      (* one message of the snapshot is sent *)
+      {| c_table := c_table st; c_lock := c_lock st; c_progs := c_progs st;
+         c_loc := set_nth i {| l_get := l_get lo; l_pend := pr |} (c_loc st);
+         c_done := c_done st; c_sent := (i, d) :: c_sent st; c_emis := c_emis st |}
+  | [] =>
+      match nth_error (c_progs st) i with
+      | Some (a :: rest) =>
+          if enabled (c_lock st) a then
+            {| c_table := match a with ATab o => apply_top o (c_table st) | _ => c_table st end;
+               c_lock := match a with AAcq => Some i | ARel _ => None | _ => c_lock st end;
+               c_progs := set_nth i rest (c_progs st);
+               c_loc := set_nth i (loc_after st lo a) (c_loc st);
+               c_done := (i, a) :: c_done st;
+               c_sent := c_sent st;
+               c_emis := emis_after st i lo a |}
+          else st
+      | _ => st
+      end
   end.
 
 Definition crun (st : cstate) (sched : list nat) : cstate := fold_left cstep sched st.
 
-Definition all_done (st : cstate) : bool := forallb (fun p => match p with [] => true | _ => false end) (c_progs st).
+Definition all_done (st : cstate) : bool :=
+  forallb (fun p => match p with [] => true | _ => false end) (c_progs st)
+  && forallb (fun lo => match l_pend lo with [] => true | _ => false end) (c_loc st).
+
+(* the messages thread i handed to send_log, oldest first; the snapshots it took, oldest first; the executed steps *)
+Definition msgs_by (i : nat) (st : cstate) : list delivery :=
+  map snd (filter (fun p => Nat.eqb (fst p) i) (rev (c_sent st))).
+Definition emissions_by (i : nat) (st : cstate) : list emission :=
+  filter (fun e => Nat.eqb (em_thread e) i) (rev (c_emis st)).
+Definition lin (st : cstate) : list (nat * aop) := rev (c_done st).
+Definition table_after (t0 : table) (l : list (nat * aop)) : table := apply_all (tops (map snd l)) t0.
+
+(* the program of a module thread emitting records (module, level number, python level name) *)
+Definition emit_prog (recs : list (name * Z * name)) : list aop :=
+  flat_map (fun r => [AGet (fst (fst r)); ASnap (snd (fst r)) (snd r)]) recs.
 
 (* ------------------------------------------------------------------ programs of the threads *)
 (* set_conn_level(m, c, <valid level lv>): setdefault, then one in-place operation on the module's dict *)
@@ -153,14 +207,6 @@ Definition op_prog (mods : list name) (o : op) : list aop :=
   end.
 
 Definition conn_prog (mods : list name) (ops : list op) : list aop := flat_map (op_prog mods) ops.
-
-(* the table operations of a program, in order *)
-Fixpoint tops (p : list aop) : list top :=
-  match p with
-  | [] => []
-  | ATab o :: r => o :: tops r
-  | _ :: r => tops r
-  end.
 
 (* does the operation write the entry of connection c in module m's dict *)
 Definition touches (m : name) (c : conn) (o : top) : bool :=
